@@ -1,24 +1,1027 @@
-//! C04 — not implemented yet (stub so that the registry compiles).
+//! C04 — layered remapping fidelity: on the fragment {plain keys, output chords, multi, XX, `_`,
+//! use-defsrc, layer-while-held, layer-switch, release-key, release-layer} kanata's OS output must
+//! equal, tick by tick, the output of the simple layered-keymap model of the configuration guide.
+//!
+//! The model (DESIGN.md appendix E.1) is driven by this file's own description of the generated
+//! configuration (`Cfg`), never by kanata's parsed tables, so the parser's table construction
+//! (defsrc order, deflayermap, `_` / XX fill, block-unmapped-keys) is inside the judged path.
 
-use crate::core::{CaseOut, Check, Ctx};
+#[path = "a_util.rs"]
+pub mod util;
+
+use self::util::*;
+use crate::core::rng::Rng;
+use crate::core::sim::{code_name, render_hist, Ev, Sim};
+use crate::core::{CaseOut, Check, Ctx, Tier};
+use serde_json::{json, Value};
+use std::collections::VecDeque;
 
 pub struct C04Check;
 pub static C04: C04Check = C04Check;
+
+// ------------------------------------------------------------------ configuration description
+
+#[derive(Clone, Debug, PartialEq)]
+pub enum Ac {
+    Key(&'static str),
+    /// output chord: modifiers then the final key, e.g. S-a = [lsft, a]
+    Chord(Vec<&'static str>),
+    Multi(Vec<Ac>),
+    NoOp,
+    Trans,
+    Src,
+    Lwh(usize),
+    Lsw(usize),
+    RelKey(&'static str),
+    RelLayer(usize),
+}
+
+#[derive(Clone, Debug)]
+pub struct Cfg {
+    /// defsrc, in defsrc order
+    pub keys: Vec<&'static str>,
+    /// a physical key that is not in defsrc (only pressed when process-unmapped-keys is yes)
+    pub unmapped: Option<&'static str>,
+    /// layers[l][i] = action of defsrc key i on layer l
+    pub layers: Vec<Vec<Ac>>,
+    /// transparent-key-resolution layer-stack (true) / to-base-layer (false)
+    pub v2: bool,
+    pub delegate: bool,
+    pub block: bool,
+    pub process_unmapped: bool,
+    /// render layer l as deflayermap (transparent entries omitted)
+    pub layermap: Vec<bool>,
+    /// write the resolution options into defcfg even when they are the defaults
+    pub explicit: bool,
+}
+
+fn mod_prefix(m: &str) -> &'static str {
+    match m {
+        "lsft" => "S-",
+        "lctl" => "C-",
+        "lalt" => "A-",
+        "lmet" => "M-",
+        "ralt" => "RA-",
+        "rsft" => "RS-",
+        "rctl" => "RC-",
+        _ => "S-",
+    }
+}
+
+impl Ac {
+    pub fn render(&self) -> String {
+        match self {
+            Ac::Key(k) => k.to_string(),
+            Ac::Chord(v) => {
+                let mut s = String::new();
+                for m in &v[..v.len() - 1] {
+                    s.push_str(mod_prefix(m));
+                }
+                s.push_str(v[v.len() - 1]);
+                s
+            }
+            Ac::Multi(v) => format!("(multi {})", v.iter().map(|a| a.render()).collect::<Vec<_>>().join(" ")),
+            Ac::NoOp => "XX".into(),
+            Ac::Trans => "_".into(),
+            Ac::Src => "use-defsrc".into(),
+            Ac::Lwh(i) => format!("(layer-while-held l{i})"),
+            Ac::Lsw(i) => format!("(layer-switch l{i})"),
+            Ac::RelKey(k) => format!("(release-key {k})"),
+            Ac::RelLayer(i) => format!("(release-layer l{i})"),
+        }
+    }
+    fn kind_letters(&self, s: &mut String) {
+        match self {
+            Ac::Key(_) => s.push('k'),
+            Ac::Chord(_) => s.push('c'),
+            Ac::Multi(v) => {
+                s.push('m');
+                for a in v {
+                    a.kind_letters(s)
+                }
+            }
+            Ac::NoOp => s.push('x'),
+            Ac::Trans => s.push('_'),
+            Ac::Src => s.push('s'),
+            Ac::Lwh(_) => s.push('L'),
+            Ac::Lsw(_) => s.push('W'),
+            Ac::RelKey(_) => s.push('r'),
+            Ac::RelLayer(_) => s.push('R'),
+        }
+    }
+}
+
+impl Cfg {
+    pub fn render(&self) -> String {
+        let mut s = String::new();
+        let mut opts = vec![];
+        if self.process_unmapped {
+            opts.push("process-unmapped-keys yes".to_string());
+        }
+        if self.block {
+            opts.push("block-unmapped-keys yes".to_string());
+        }
+        if self.delegate {
+            opts.push("delegate-to-first-layer yes".to_string());
+        } else if self.explicit {
+            opts.push("delegate-to-first-layer no".to_string());
+        }
+        if !self.v2 {
+            opts.push("transparent-key-resolution to-base-layer".to_string());
+        } else if self.explicit {
+            opts.push("transparent-key-resolution layer-stack".to_string());
+        }
+        if !opts.is_empty() {
+            s.push_str(&format!("(defcfg {})\n", opts.join(" ")));
+        }
+        s.push_str(&format!("(defsrc {})\n", self.keys.join(" ")));
+        for (l, row) in self.layers.iter().enumerate() {
+            if self.layermap.get(l).copied().unwrap_or(false) {
+                let mut items = vec![];
+                for (i, a) in row.iter().enumerate() {
+                    if *a != Ac::Trans {
+                        items.push(format!("{} {}", self.keys[i], a.render()));
+                    }
+                }
+                s.push_str(&format!("(deflayermap (l{l}) {})\n", items.join(" ")));
+            } else {
+                s.push_str(&format!("(deflayer l{l} {})\n", row.iter().map(|a| a.render()).collect::<Vec<_>>().join(" ")));
+            }
+        }
+        s
+    }
+    /// all physical keys that histories may use: defsrc keys, then the unmapped key
+    pub fn phys(&self) -> Vec<&'static str> {
+        let mut v = self.keys.clone();
+        if self.process_unmapped {
+            if let Some(u) = self.unmapped {
+                v.push(u);
+            }
+        }
+        v
+    }
+    fn shape(&self) -> String {
+        let mut s = format!("v{}d{}b{}p{}|", self.v2 as u8, self.delegate as u8, self.block as u8, self.process_unmapped as u8);
+        for (l, row) in self.layers.iter().enumerate() {
+            if self.layermap.get(l).copied().unwrap_or(false) {
+                s.push('M');
+            }
+            for a in row {
+                a.kind_letters(&mut s);
+                s.push(',');
+            }
+            s.push('|');
+        }
+        s
+    }
+}
+
+// ------------------------------------------------------------------ reference model
+
+#[derive(Clone, Debug)]
+enum St {
+    Key { c: usize, kc: u16, clear: bool },
+    Layer { c: usize, idx: usize },
+}
+
+#[derive(Default, Clone, Debug)]
+pub struct MStats {
+    pub resolved_below_top: u64,
+    pub release_on_changed_stack: u64,
+    pub max_held: u64,
+    pub chord_cleared: u64,
+    pub release_key_hits: u64,
+    pub release_layer_hits: u64,
+    pub dup_keycode_held: u64,
+    pub layer_switches: u64,
+    pub presses: u64,
+    pub nested_trans: u64,
+    pub first_layer_delegations: u64,
+}
+
+pub struct Model<'a> {
+    cfg: &'a Cfg,
+    phys: Vec<u16>,
+    q: VecDeque<(bool, usize)>,
+    st: Vec<St>,
+    default_layer: usize,
+    diff: OsDiff,
+    press_order: Vec<Option<Vec<usize>>>,
+    deleg_appended: bool,
+    pub stats: MStats,
+}
+
+impl<'a> Model<'a> {
+    pub fn new(cfg: &'a Cfg) -> Self {
+        let phys: Vec<u16> = cfg.phys().iter().map(|k| kc(k)).collect();
+        let n = phys.len();
+        Model { cfg, phys, q: VecDeque::new(), st: vec![], default_layer: 0, diff: OsDiff::default(), press_order: vec![None; n], deleg_appended: false, stats: MStats::default() }
+    }
+    pub fn push(&mut self, press: bool, c: usize) {
+        self.q.push_back((press, c));
+    }
+    pub fn pending(&self) -> usize {
+        self.q.len()
+    }
+    pub fn idle(&self) -> bool {
+        self.q.is_empty() && self.st.is_empty() && self.diff.all_up()
+    }
+    pub fn held_count(&self) -> usize {
+        self.st.iter().filter(|s| matches!(s, St::Layer { .. })).count()
+    }
+    pub fn reset_default_layer(&mut self) {
+        self.default_layer = 0;
+    }
+    fn cell(&self, l: usize, c: usize) -> Ac {
+        if c < self.cfg.keys.len() {
+            self.cfg.layers[l][c].clone()
+        } else if self.cfg.block {
+            Ac::NoOp
+        } else {
+            Ac::Trans
+        }
+    }
+    fn held_layers(&self) -> Vec<usize> {
+        self.st.iter().rev().filter_map(|s| if let St::Layer { idx, .. } = s { Some(*idx) } else { None }).collect()
+    }
+    fn current_layer(&self) -> usize {
+        self.held_layers().first().copied().unwrap_or(self.default_layer)
+    }
+    /// layers searched by a press, in order (the defsrc key comes after them)
+    fn order(&self) -> Vec<usize> {
+        let cur = self.current_layer();
+        if self.cfg.v2 {
+            let mut v = self.held_layers();
+            v.push(self.default_layer);
+            if self.cfg.delegate && cur != 0 && self.default_layer != 0 {
+                v.push(0);
+            }
+            v
+        } else {
+            let mut v = vec![cur];
+            if self.cfg.delegate && cur != 0 {
+                v.push(0);
+            }
+            v
+        }
+    }
+    fn resolve(&mut self, c: usize, order: &mut std::slice::Iter<usize>, top: bool) -> Ac {
+        let mut first = true;
+        let n_total = order.len();
+        for (i, &l) in order.by_ref().enumerate() {
+            let a = self.cell(l, c);
+            if a != Ac::Trans {
+                if !first && top {
+                    self.stats.resolved_below_top += 1;
+                }
+                if self.deleg_appended && l == 0 && i + 1 == n_total && top {
+                    self.stats.first_layer_delegations += 1;
+                }
+                return a;
+            }
+            first = false;
+        }
+        if top {
+            self.stats.resolved_below_top += 1;
+        }
+        Ac::Key(self.cfg.phys()[c])
+    }
+    fn act(&mut self, a: &Ac, c: usize, order: &mut std::slice::Iter<usize>, depth: usize) {
+        if depth > 40 {
+            return;
+        }
+        let a = if *a == Ac::Trans {
+            if depth > 0 {
+                self.stats.nested_trans += 1;
+            }
+            self.resolve(c, order, depth == 0)
+        } else {
+            a.clone()
+        };
+        let before = self.st.len();
+        self.st.retain(|s| !matches!(s, St::Key { clear: true, .. }));
+        self.stats.chord_cleared += (before - self.st.len()) as u64;
+        match &a {
+            Ac::Key(k) => {
+                let code = kc(k);
+                if self.st.iter().any(|s| matches!(s, St::Key { kc, .. } if *kc == code)) {
+                    self.stats.dup_keycode_held += 1;
+                }
+                self.st.push(St::Key { c, kc: code, clear: false })
+            }
+            Ac::Chord(v) => {
+                for k in v {
+                    self.st.push(St::Key { c, kc: kc(k), clear: true });
+                }
+            }
+            Ac::Multi(v) => {
+                for x in v {
+                    let mut o = order.clone();
+                    self.act(x, c, &mut o, depth + 1);
+                }
+            }
+            Ac::NoOp => {}
+            Ac::Trans => {}
+            Ac::Src => {
+                let s = Ac::Key(self.cfg.phys()[c]);
+                let e: Vec<usize> = vec![];
+                self.act(&s, c, &mut e.iter(), depth + 1);
+            }
+            Ac::Lwh(i) => {
+                self.st.push(St::Layer { c, idx: *i });
+                let n = self.st.iter().filter(|s| matches!(s, St::Layer { .. })).count() as u64;
+                self.stats.max_held = self.stats.max_held.max(n);
+            }
+            Ac::Lsw(i) => {
+                if self.default_layer != *i {
+                    self.stats.layer_switches += 1;
+                }
+                self.default_layer = *i
+            }
+            Ac::RelKey(k) => {
+                let code = kc(k);
+                let before = self.st.len();
+                self.st.retain(|s| !matches!(s, St::Key { kc, .. } if *kc == code));
+                self.stats.release_key_hits += (before - self.st.len()) as u64;
+            }
+            Ac::RelLayer(i) => {
+                let before = self.st.len();
+                self.st.retain(|s| !matches!(s, St::Layer { idx, .. } if idx == i));
+                self.stats.release_layer_hits += (before - self.st.len()) as u64;
+            }
+        }
+    }
+    pub fn tick(&mut self) -> TickOut {
+        if let Some((press, c)) = self.q.pop_front() {
+            if press {
+                self.stats.presses += 1;
+                let order = self.order();
+                let cur = self.current_layer();
+                self.deleg_appended = self.cfg.delegate && cur != 0 && (!self.cfg.v2 || self.default_layer != 0);
+                self.press_order[c] = Some(order.clone());
+                let mut it = order.iter();
+                self.act(&Ac::Trans, c, &mut it, 0);
+            } else {
+                if let Some(o) = self.press_order[c].take() {
+                    if o != self.order() {
+                        self.stats.release_on_changed_stack += 1;
+                    }
+                }
+                self.st.retain(|s| match s {
+                    St::Key { c: cc, .. } | St::Layer { c: cc, .. } => *cc != c,
+                });
+            }
+        }
+        let cur: Vec<u16> = self.st.iter().filter_map(|s| if let St::Key { kc, .. } = s { Some(*kc) } else { None }).collect();
+        self.diff.step(&cur)
+    }
+}
+
+// ------------------------------------------------------------------ lockstep execution
+
+#[derive(Clone, Debug)]
+pub struct Mismatch {
+    pub tick: u64,
+    pub kanata: TickOut,
+    pub model: TickOut,
+    /// an output appeared while an input event was handled (never expected on this fragment)
+    pub at_event: bool,
+    /// 12 or more layers were held when this tick's press was resolved (kanata's resolution stack
+    /// holds 12 entries)
+    pub over_layers: bool,
+    /// not a disagreement: the history was stopped because it left the judged scope
+    pub out_of_scope: bool,
+}
+
+pub const LAYER_STACK_CAP: usize = 12;
+
+struct Lock<'a> {
+    sim: Sim,
+    model: Model<'a>,
+    codes: Vec<u16>,
+    max_pending: usize,
+    ticks: u64,
+    outputs: u64,
+    ktrace: Vec<(u64, TickOut)>,
+    mtrace: Vec<(u64, TickOut)>,
+    record: bool,
+    over: bool,
+    pub over_histories: u64,
+}
+
+impl<'a> Lock<'a> {
+    fn new(cfg: &'a Cfg, text: &str) -> Result<Self, String> {
+        let sim = Sim::new(text)?;
+        let model = Model::new(cfg);
+        let codes = model.phys.clone();
+        Ok(Lock { sim, model, codes, max_pending: 0, ticks: 0, outputs: 0, ktrace: vec![], mtrace: vec![], record: false, over: false, over_histories: 0 })
+    }
+    fn tick(&mut self) -> Option<Mismatch> {
+        self.sim.tick();
+        let k = kanata_outs(self.sim.last());
+        let was_over = self.over;
+        let presses_before = self.model.stats.presses;
+        let m = self.model.tick();
+        if self.model.held_count() >= LAYER_STACK_CAP {
+            self.over = true;
+        }
+        self.ticks += 1;
+        self.outputs += k.len() as u64;
+        if self.record {
+            if !k.is_empty() {
+                self.ktrace.push((self.sim.now, k.clone()));
+            }
+            if !m.is_empty() {
+                self.mtrace.push((self.sim.now, m.clone()));
+            }
+        }
+        if k != m {
+            return Some(Mismatch { tick: self.sim.now, kanata: k, model: m, at_event: false, over_layers: was_over, out_of_scope: false });
+        }
+        if (was_over && self.model.stats.presses > presses_before) || self.model.held_count() > LAYER_STACK_CAP + 4 {
+            // one press was resolved (and compared) with 12 or more layers held; beyond that the
+            // history is outside the judged scope
+            self.over_histories += 1;
+            return Some(Mismatch { tick: self.sim.now, kanata: k, model: m, at_event: false, over_layers: true, out_of_scope: true });
+        }
+        None
+    }
+    /// run one history plus a drain; None = agreed on every tick
+    fn run(&mut self, h: &[Ev]) -> Option<Mismatch> {
+        self.over = false;
+        for e in h {
+            match e {
+                Ev::T(n) => {
+                    for _ in 0..*n {
+                        if let Some(m) = self.tick() {
+                            return Some(m);
+                        }
+                    }
+                }
+                Ev::P(code) | Ev::R(code) => {
+                    let press = matches!(e, Ev::P(_));
+                    let Some(c) = self.codes.iter().position(|x| x == code) else { continue };
+                    if press {
+                        self.sim.press(*code);
+                    } else {
+                        self.sim.release(*code);
+                    }
+                    self.model.push(press, c);
+                    self.max_pending = self.max_pending.max(self.model.pending());
+                    if !self.sim.last().is_empty() {
+                        return Some(Mismatch { tick: self.sim.now, kanata: kanata_outs(self.sim.last()), model: vec![], at_event: true, over_layers: self.over, out_of_scope: false });
+                    }
+                }
+                _ => {}
+            }
+        }
+        let mut left = self.model.pending() + 3;
+        while left > 0 {
+            if let Some(m) = self.tick() {
+                return Some(m);
+            }
+            left -= 1;
+        }
+        None
+    }
+    /// everything must be back to the initial state after a history in which every key was released
+    fn clean(&self) -> Result<(), String> {
+        let l = self.sim.k.layout.b();
+        if !self.sim.os.all_up() {
+            return Err(format!("OS still holds {}", self.sim.os.describe()));
+        }
+        if !l.states.is_empty() {
+            return Err(format!("layout states not empty: {:?}", l.states));
+        }
+        if !l.queue.is_empty() {
+            return Err("layout queue not empty".into());
+        }
+        if !self.model.idle() {
+            return Err("model not idle (harness)".into());
+        }
+        Ok(())
+    }
+    /// between histories: both sides back to the start-up base layer
+    fn rebase(&mut self) {
+        self.sim.k.layout.bm().set_default_layer(0);
+        self.model.reset_default_layer();
+        clear_trace(&mut self.sim);
+    }
+}
+
+pub struct FreshRun {
+    pub mismatch: Option<Mismatch>,
+    pub unclean: Option<String>,
+    pub observed: Vec<String>,
+    pub expected: Vec<String>,
+}
+
+/// judge one (config, history) pair on a fresh kanata and a fresh model
+pub fn fresh_run(cfg: &Cfg, text: &str, h: &[Ev]) -> Option<FreshRun> {
+    let mut l = Lock::new(cfg, text).ok()?;
+    l.record = true;
+    let mut mismatch = l.run(h);
+    if mismatch.as_ref().map(|m| m.out_of_scope).unwrap_or(false) {
+        return Some(FreshRun { mismatch: None, unclean: None, observed: fmt_trace(&l.ktrace), expected: fmt_trace(&l.mtrace) });
+    }
+    if let Some(m) = mismatch.as_mut() {
+        m.out_of_scope = false;
+    }
+    let unclean = if mismatch.is_none() { l.clean().err() } else { None };
+    if mismatch.is_some() {
+        // let kanata run on so the witness shows what it did afterwards
+        for _ in 0..6 {
+            l.sim.tick();
+            let k = kanata_outs(l.sim.last());
+            if !k.is_empty() {
+                l.ktrace.push((l.sim.now, k));
+            }
+        }
+    }
+    Some(FreshRun { mismatch, unclean, observed: fmt_trace(&l.ktrace), expected: fmt_trace(&l.mtrace) })
+}
+
+fn report(out: &mut CaseOut, cfg: &Cfg, text: &str, h: &[Ev], part: &str, reused: Option<&Mismatch>, reused_unclean: Option<&str>) {
+    // confirm on a fresh instance, minimise, write the witness
+    let fr = fresh_run(cfg, text, h);
+    let fresh_bad = fr.as_ref().map(|f| f.mismatch.is_some() || f.unclean.is_some()).unwrap_or(false);
+    if fresh_bad {
+        let over0 = fr.as_ref().and_then(|f| f.mismatch.as_ref()).map(|m| m.over_layers).unwrap_or(false);
+        let hm = minimise_hist(h, &mut |c| fresh_run(cfg, text, c).map(|f| (f.mismatch.is_some() || f.unclean.is_some()) && f.mismatch.as_ref().map(|m| m.over_layers).unwrap_or(false) == over0).unwrap_or(false));
+        let f = fresh_run(cfg, text, &hm).unwrap_or(FreshRun { mismatch: None, unclean: None, observed: vec![], expected: vec![] });
+        let (sig, what) = match (&f.mismatch, &f.unclean) {
+            (Some(m), _) if m.at_event => ("C04:output-at-event".to_string(), format!("output [{}] while an input event was handled", fmt_tick(&m.kanata))),
+            (Some(m), _) if m.over_layers => (
+                "C04:12-or-more-held-layers".to_string(),
+                format!("tick {}: with 12 or more layers held kanata wrote [{}], the layered-keymap model expects [{}]", m.tick, fmt_tick(&m.kanata), fmt_tick(&m.model)),
+            ),
+            (Some(m), _) => (
+                format!("C04:{}", classify(&m.kanata, &m.model)),
+                format!("tick {}: kanata wrote [{}], the layered-keymap model expects [{}]", m.tick, fmt_tick(&m.kanata), fmt_tick(&m.model)),
+            ),
+            (None, Some(u)) => ("C04:not-clean-after-history".to_string(), format!("after every key was released: {u}")),
+            _ => ("C04:unstable-minimisation".to_string(), "mismatch vanished while minimising".to_string()),
+        };
+        out.violate(
+            sig,
+            what,
+            json!({"part": part, "config": text, "history": render_hist(&hm), "original_history": render_hist(h), "observed": f.observed, "expected": f.expected,
+                   "first_diff_tick": f.mismatch.as_ref().map(|m| m.tick), "reproduced_on_fresh_instance": true}),
+        );
+    } else {
+        // only visible with state carried over from earlier histories of this case
+        let (sig, what) = match (reused, reused_unclean) {
+            (Some(m), _) => (
+                format!("C04:carry-over:{}", classify(&m.kanata, &m.model)),
+                format!("tick {}: kanata wrote [{}], model expects [{}] (only after earlier histories on the same instance)", m.tick, fmt_tick(&m.kanata), fmt_tick(&m.model)),
+            ),
+            (None, Some(u)) => ("C04:carry-over:not-clean".to_string(), u.to_string()),
+            _ => ("C04:carry-over".to_string(), String::new()),
+        };
+        out.violate(sig, what, json!({"part": part, "config": text, "history": render_hist(h), "observed": reused.map(|m| fmt_tick(&m.kanata)), "expected": reused.map(|m| fmt_tick(&m.model)), "reproduced_on_fresh_instance": false}));
+    }
+}
+
+// ------------------------------------------------------------------ the eight fixed configurations
+
+fn k(s: &'static str) -> Ac {
+    Ac::Key(s)
+}
+fn ch(v: &[&'static str]) -> Ac {
+    Ac::Chord(v.to_vec())
+}
+fn mu(v: Vec<Ac>) -> Ac {
+    Ac::Multi(v)
+}
+
+pub fn fixed_cfgs() -> Vec<Cfg> {
+    use Ac::*;
+    let base = |layers: Vec<Vec<Ac>>, v2: bool, delegate: bool| Cfg {
+        keys: vec!["a", "b", "c"],
+        unmapped: None,
+        layermap: vec![false; layers.len()],
+        layers,
+        v2,
+        delegate,
+        block: false,
+        process_unmapped: false,
+        explicit: false,
+    };
+    let mut v = vec![];
+    // 0: the classic: one held layer, transparent fall-through
+    v.push(base(vec![vec![k("a"), k("b"), Lwh(1)], vec![k("1"), Trans, Trans]], true, false));
+    // 1: stacked held layers, chord on the top one, a key shared between layers
+    v.push(base(vec![vec![Lwh(1), Lwh(2), k("c")], vec![Trans, Lwh(2), k("x")], vec![Lwh(1), Trans, ch(&["lsft", "x"])]], true, false));
+    // 2: to-base-layer resolution with delegation, layer-switch back and forth
+    v.push(base(vec![vec![Lwh(1), k("b"), Lsw(2)], vec![Trans, Trans, Trans], vec![Lwh(1), Trans, Lsw(0)]], false, true));
+    // 3: release-key / release-layer
+    v.push(base(vec![vec![Lwh(1), k("lsft"), k("c")], vec![Trans, mu(vec![RelLayer(1), RelKey("c")]), mu(vec![RelKey("lsft"), k("x")])]], true, false));
+    // 4: multi with nested transparent items, chords cleared by the next action
+    v.push(base(vec![vec![Lwh(1), ch(&["lsft", "b"]), mu(vec![k("lctl"), Trans])], vec![Trans, mu(vec![k("lalt"), Trans]), ch(&["lctl", "lsft", "c"])]], true, false));
+    // 5: layer-stack + delegate + layer-switch + use-defsrc + XX
+    v.push(base(vec![vec![Lwh(2), k("1"), Lsw(1)], vec![Lwh(2), Trans, Lsw(0)], vec![NoOp, Trans, Src]], true, true));
+    // 6: the same key code from several physical keys (de-duplication), chord containing a held key
+    v.push(base(vec![vec![k("a"), k("a"), Lwh(1)], vec![k("lsft"), ch(&["lsft", "a"]), Trans]], true, false));
+    // 7: third physical key is not in defsrc; block-unmapped-keys; second layer written as deflayermap is
+    //    not combined with block (the guide does not say what an unlisted defsrc key is then)
+    let mut c7 = base(vec![vec![Lwh(1), k("b")], vec![Trans, mu(vec![k("c"), Trans])]], false, false);
+    c7.keys = vec!["a", "b"];
+    c7.unmapped = Some("c");
+    c7.process_unmapped = true;
+    c7.block = true;
+    c7.explicit = true;
+    v.push(c7);
+    v
+}
+
+// ------------------------------------------------------------------ random configurations
+
+const PHYS6: [&str; 6] = ["a", "b", "c", "d", "e", "f"];
+const OUT_PLAIN: [&str; 7] = ["a", "b", "c", "1", "2", "x", "z"];
+const OUT_MODS: [&str; 3] = ["lsft", "lctl", "lalt"];
+
+fn gen_leaf(rng: &mut Rng, nl: usize, l: usize, allow_layer: bool) -> Ac {
+    let w_trans = if l == 0 { 6 } else { 28 };
+    let w_layer = if nl > 1 && allow_layer { 14 } else { 0 };
+    let tot = 30 + 8 + 10 + 5 + w_trans + 5 + w_layer + w_layer / 2 + 6 + if nl > 1 { 5 } else { 0 };
+    let mut r = rng.below(tot as u64) as i64;
+    let mut take = |w: i64| {
+        if r < w {
+            r = i64::MAX / 2;
+            true
+        } else {
+            r -= w;
+            false
+        }
+    };
+    if take(30) {
+        return Ac::Key(*rng.pick(&OUT_PLAIN));
+    }
+    if take(8) {
+        return Ac::Key(*rng.pick(&OUT_MODS));
+    }
+    if take(10) {
+        let mut v: Vec<&'static str> = vec![];
+        let nm = 1 + rng.usize(2);
+        for i in rng.subset(OUT_MODS.len(), nm) {
+            v.push(OUT_MODS[i]);
+        }
+        v.push(*rng.pick(&OUT_PLAIN));
+        return Ac::Chord(v);
+    }
+    if take(5) {
+        return Ac::NoOp;
+    }
+    if take(w_trans) {
+        return Ac::Trans;
+    }
+    if take(5) {
+        return Ac::Src;
+    }
+    if take(w_layer as i64) {
+        return Ac::Lwh(rng.usize(nl));
+    }
+    if take(w_layer as i64 / 2) {
+        return Ac::Lsw(rng.usize(nl));
+    }
+    if take(6) {
+        let all: Vec<&'static str> = OUT_PLAIN.iter().chain(OUT_MODS.iter()).copied().collect();
+        return Ac::RelKey(*rng.pick(&all));
+    }
+    Ac::RelLayer(rng.usize(nl))
+}
+
+fn gen_action(rng: &mut Rng, nl: usize, l: usize) -> Ac {
+    if rng.chance(14, 100) {
+        // multi of 2-3 leaves, at most one layer-while-held per action (so that fewer than 12 layers
+        // can ever be held with 6 keys)
+        let n = 2 + rng.usize(2);
+        let mut v = vec![];
+        let mut has_layer = false;
+        for _ in 0..n {
+            let a = gen_leaf(rng, nl, l, !has_layer);
+            if matches!(a, Ac::Lwh(_)) {
+                has_layer = true;
+            }
+            v.push(a);
+        }
+        Ac::Multi(v)
+    } else {
+        gen_leaf(rng, nl, l, true)
+    }
+}
+
+pub fn gen_cfg(rng: &mut Rng) -> Cfg {
+    let nl = 1 + rng.usize(4);
+    let nk = 2 + rng.usize(5);
+    let mut order: Vec<usize> = (0..6).collect();
+    rng.shuffle(&mut order);
+    let keys: Vec<&'static str> = order[..nk].iter().map(|i| PHYS6[*i]).collect();
+    let process_unmapped = rng.coin();
+    let block = process_unmapped && rng.coin();
+    let mut layers = vec![];
+    for l in 0..nl {
+        let mut row = vec![];
+        for _ in 0..nk {
+            row.push(gen_action(rng, nl, l));
+        }
+        layers.push(row);
+    }
+    if nl > 1 && rng.chance(7, 10) {
+        // make sure another layer is reachable from the start
+        let i = rng.usize(nk);
+        layers[0][i] = Ac::Lwh(1 + rng.usize(nl - 1));
+    }
+    let layermap: Vec<bool> = (0..nl).map(|_| !block && rng.chance(1, 4)).collect();
+    // a key that is not in defsrc: one of the unused physical keys, or a key that is also an output
+    let unmapped = if nk < 6 && rng.coin() { Some(PHYS6[order[nk]]) } else { Some("g") };
+    Cfg { keys, unmapped, layers, v2: rng.coin(), delegate: rng.coin(), block, process_unmapped, layermap, explicit: rng.coin() }
+}
+
+/// physically consistent random history that keeps fewer than 32 events pending
+pub fn gen_hist(rng: &mut Rng, codes: &[u16], n_events: usize, burst: bool) -> Vec<Ev> {
+    let mut h = vec![];
+    let mut down: Vec<u16> = vec![];
+    let mut pending: u32 = 0;
+    let gaps: &[u32] = if burst { &[0, 0, 0, 0, 0, 0, 0, 1] } else { &[0, 0, 1, 1, 2, 3, 5] };
+    for _ in 0..n_events {
+        let can_press = down.len() < codes.len();
+        let do_press = if down.is_empty() { true } else if !can_press { false } else { rng.chance(55, 100) };
+        if do_press {
+            let ups: Vec<u16> = codes.iter().copied().filter(|c| !down.contains(c)).collect();
+            let c = *rng.pick(&ups);
+            down.push(c);
+            h.push(Ev::P(c));
+        } else {
+            let i = rng.usize(down.len());
+            h.push(Ev::R(down.remove(i)));
+        }
+        pending += 1;
+        let mut g = *rng.pick(gaps);
+        if pending >= 29 {
+            g = g.max(10 + rng.below(25) as u32);
+        }
+        if g > 0 {
+            h.push(Ev::T(g));
+            pending = pending.saturating_sub(g);
+        }
+    }
+    rng.shuffle(&mut down);
+    for c in down {
+        h.push(Ev::R(c));
+        pending += 1;
+        let mut g = *rng.pick(gaps);
+        if pending >= 29 {
+            g = g.max(10);
+        }
+        if g > 0 {
+            h.push(Ev::T(g));
+            pending = pending.saturating_sub(g);
+        }
+    }
+    h
+}
+
+// ------------------------------------------------------------------ the check
+
+const GAPS: [u32; 3] = [0, 1, 2];
+
+fn exh_n(tier: Tier) -> usize {
+    tier.sel(6, 8)
+}
+/// exhaustive cases: (config, first three key choices)
+fn n_exh_cases() -> u64 {
+    (fixed_cfgs().len() * 27) as u64
+}
+fn n_random(tier: Tier) -> u64 {
+    tier.sel(2_400, 50_000)
+}
+
+fn add_stats(out: &mut CaseOut, l: &Lock) {
+    let s = &l.model.stats;
+    out.count("presses", s.presses);
+    out.count("press_resolved_below_top_layer", s.resolved_below_top);
+    out.count("release_on_changed_layer_stack", s.release_on_changed_stack);
+    out.count("chord_keys_cleared_by_next_action", s.chord_cleared);
+    out.count("release_key_hits", s.release_key_hits);
+    out.count("release_layer_hits", s.release_layer_hits);
+    out.count("same_keycode_held_twice", s.dup_keycode_held);
+    out.count("layer_switches", s.layer_switches);
+    out.count("nested_transparent_resolutions", s.nested_trans);
+    out.count("first_layer_delegations", s.first_layer_delegations);
+    out.count("ticks_compared", l.ticks);
+    out.count("outputs_compared", l.outputs);
+    out.max("held_layers", s.max_held);
+    out.max("pending_events", l.max_pending as u64);
+}
+
+impl C04Check {
+    fn run_exhaustive(&self, ctx: &Ctx, idx: u64, out: &mut CaseOut) {
+        let cfgs = fixed_cfgs();
+        let ci = (idx / 27) as usize;
+        let p0 = ((idx % 27) / 9) as usize;
+        let p1 = ((idx % 9) / 3) as usize;
+        let p2 = (idx % 3) as usize;
+        let cfg = &cfgs[ci];
+        let text = cfg.render();
+        let n = exh_n(ctx.tier);
+        let mut lock = match Lock::new(cfg, &text) {
+            Ok(l) => l,
+            Err(e) => {
+                out.violate("C04:fixed-config-rejected", format!("fixed configuration {ci} rejected: {}", e.lines().next().unwrap_or("")), json!({"config": text, "error": e}));
+                return;
+            }
+        };
+        let codes: Vec<u16> = ["a", "b", "c"].iter().map(|s| kc(s)).collect();
+        let mut reported = 0;
+        // every length 2..=n (length-1 histories are prefixes of these up to the final release)
+        for len in 2..=n {
+            let mut pending: Vec<(Vec<Ev>, Option<Mismatch>, Option<String>)> = vec![];
+            if len == 2 && p2 != 0 {
+                continue;
+            }
+            let prefix: Vec<usize> = if len == 2 { vec![p0, p1] } else { vec![p0, p1, p2] };
+            for_each_schedule(3, GAPS.len(), len, &prefix, |keys, gaps| {
+                let h = schedule_to_hist(&codes, keys, gaps, &GAPS, 2, 1);
+                let before = lock.model.stats.release_on_changed_stack;
+                let mm = lock.run(&h);
+                let unclean = if mm.is_none() { lock.clean().err() } else { None };
+                out.inc("histories");
+                out.inc("histories_exhaustive");
+                out.count("events", h.iter().filter(|e| !matches!(e, Ev::T(_))).count() as u64);
+                if gaps.iter().all(|g| *g == 0) {
+                    let ks: String = keys.iter().map(|k| char::from(b'a' + *k as u8)).collect();
+                    out.tag(format!("E{ci}:{ks}:{}", (lock.model.stats.release_on_changed_stack > before) as u8));
+                }
+                if mm.is_some() || unclean.is_some() {
+                    pending.push((h, mm, unclean));
+                    // the instance may be in any state now: start over
+                    add_stats(out, &lock);
+                    match Lock::new(cfg, &text) {
+                        Ok(l) => lock = l,
+                        Err(_) => return false,
+                    }
+                    return pending.len() < 3;
+                }
+                lock.rebase();
+                true
+            });
+            for (h, mm, un) in pending {
+                if reported < 3 {
+                    reported += 1;
+                    report(out, cfg, &text, &h, "exhaustive", mm.as_ref(), un.as_deref());
+                }
+            }
+            if reported >= 3 {
+                break;
+            }
+        }
+        add_stats(out, &lock);
+        out.inc("configs");
+        if p0 == 0 && p1 == 2 && p2 == 1 {
+            out.sample = Some(json!({"part": "exhaustive", "config_index": ci, "config": text, "first_three_keys": [p0, p1, p2], "max_events": n, "gaps": GAPS,
+                "example_history": render_hist(&schedule_to_hist(&codes, &[p0, p1, 1, 2, 0], &[0, 1, 0, 2, 1], &GAPS, 2, 1))}));
+        }
+    }
+
+    fn random_case(&self, ctx: &Ctx, idx: u64) -> (Cfg, Vec<Vec<Ev>>) {
+        let mut rng = Rng::for_case(ctx.seed, "C04", "random", idx);
+        let cfg = gen_cfg(&mut rng);
+        let codes: Vec<u16> = cfg.phys().iter().map(|k| kc(k)).collect();
+        let nh = 6;
+        let mut hs = vec![];
+        for i in 0..nh {
+            let n = 20 + rng.usize(41);
+            hs.push(gen_hist(&mut rng, &codes, n, i % 3 == 2));
+        }
+        (cfg, hs)
+    }
+
+    fn run_random(&self, ctx: &Ctx, idx: u64, out: &mut CaseOut) {
+        let (cfg, hs) = self.random_case(ctx, idx);
+        let text = cfg.render();
+        if ctx.verbose {
+            eprintln!("config:\n{text}");
+        }
+        let mut lock = match Lock::new(&cfg, &text) {
+            Ok(l) => l,
+            Err(e) => {
+                // every configuration of the fragment is valid by the guide
+                out.violate("C04:fragment-config-rejected", format!("configuration of the layered fragment rejected: {}", e.lines().next().unwrap_or("")), json!({"config": text, "error": e, "history": "", "observed": "parse error", "expected": "accepted"}));
+                return;
+            }
+        };
+        out.inc("configs");
+        out.inc("configs_random");
+        let mut reported = 0;
+        for (hi, h) in hs.iter().enumerate() {
+            if ctx.verbose {
+                eprintln!("history {hi}: {}", render_hist(h));
+            }
+            let mm = lock.run(h);
+            if mm.as_ref().map(|m| m.out_of_scope).unwrap_or(false) {
+                // 12 or more layers held: compared up to and including the first press resolved in
+                // that state, the rest of the history is not judged
+                out.inc("histories");
+                out.inc("histories_random");
+                out.inc("histories_cut_at_12_held_layers");
+                add_stats(out, &lock);
+                match Lock::new(&cfg, &text) {
+                    Ok(l) => lock = l,
+                    Err(_) => return,
+                }
+                continue;
+            }
+            let unclean = if mm.is_none() { lock.clean().err() } else { None };
+            out.inc("histories");
+            out.inc("histories_random");
+            out.count("events", h.iter().filter(|e| !matches!(e, Ev::T(_))).count() as u64);
+            if mm.is_some() || unclean.is_some() {
+                if reported < 2 {
+                    reported += 1;
+                    report(out, &cfg, &text, h, "random", mm.as_ref(), unclean.as_deref());
+                }
+                add_stats(out, &lock);
+                match Lock::new(&cfg, &text) {
+                    Ok(l) => lock = l,
+                    Err(_) => return,
+                }
+                continue;
+            }
+            lock.rebase();
+        }
+        add_stats(out, &lock);
+        out.tag(format!("R:{}", cfg.shape()));
+        if idx % 700 == n_exh_cases() % 700 {
+            out.sample = Some(json!({"part": "random", "config": text, "history": render_hist(&hs[0]), "physical_keys": cfg.phys().iter().map(|k| code_name(kc(k))).collect::<Vec<_>>()}));
+        }
+    }
+}
 
 impl Check for C04Check {
     fn id(&self) -> &'static str {
         "C04"
     }
-    fn n_cases(&self, _ctx: &Ctx) -> u64 {
-        0
+    fn n_cases(&self, ctx: &Ctx) -> u64 {
+        n_exh_cases() + n_random(ctx.tier)
     }
-    fn run_case(&self, _ctx: &Ctx, _idx: u64) -> CaseOut {
-        CaseOut::new()
+    fn describe(&self, ctx: &Ctx, idx: u64) -> Value {
+        if idx < n_exh_cases() {
+            let cfgs = fixed_cfgs();
+            let ci = (idx / 27) as usize;
+            json!({"part": "exhaustive", "config": cfgs[ci].render(), "first_three_keys": [(idx % 27) / 9, (idx % 9) / 3, idx % 3], "max_events": exh_n(ctx.tier), "gaps": GAPS})
+        } else {
+            let (cfg, hs) = self.random_case(ctx, idx);
+            json!({"part": "random", "config": cfg.render(), "histories": hs.iter().map(|h| render_hist(h)).collect::<Vec<_>>()})
+        }
+    }
+    fn run_case(&self, ctx: &Ctx, idx: u64) -> CaseOut {
+        let mut out = CaseOut::new();
+        if idx < n_exh_cases() {
+            self.run_exhaustive(ctx, idx, &mut out);
+        } else {
+            self.run_random(ctx, idx, &mut out);
+        }
+        out
     }
     fn rule(&self) -> String {
-        "not implemented".into()
+        format!(
+            "Part 1 (exhaustive, seed-independent): 8 fixed configurations over the physical keys a b c (held layers with transparent fall-through, stacked layers, to-base-layer + delegate-to-first-layer, layer-switch, release-key/-layer, multi with nested `_`, output chords, use-defsrc, XX, the same key code from two keys, an unmapped key with block-unmapped-keys) x EVERY physically consistent history of 2..=N events (N = {} quick / {} thorough) with every inter-event gap in {{0,1,2}} ticks, every key still down released at the end. Part 2 (random): generated configurations of the fragment (1-4 layers, 2-6 defsrc keys in shuffled order, deflayer or deflayermap, both transparent-key-resolution settings, delegate-to-first-layer on/off, process-/block-unmapped-keys on/off, one key outside defsrc) x 6 histories of 20-60 events (gaps 0-5 ticks; every third history is a zero-gap burst that keeps up to 29 events pending). Every tick of every history, kanata's key presses/releases (redundant releases dropped) are compared, in order, with the layered-keymap reference model; after each history the OS model, the layout's state list and its queue must be empty. One kanata instance runs all histories of a case; a disagreement is re-judged on a fresh instance and minimised. distinct_nontrivial = (fixed config, key sequence, whether a release happened under a changed layer stack) for part 1, configuration shape for part 2.",
+            exh_n(Tier::Quick),
+            exh_n(Tier::Thorough)
+        )
     }
     fn assumptions(&self) -> Vec<String> {
-        vec![]
+        vec![
+            "fewer than 32 events pending (the generators keep at most 29 in the queue)".into(),
+            "kanata's resolution stack holds 12 layers: a history is judged up to and including the first press that is resolved with 12 or more layers held (a disagreement there has the signature C04:12-or-more-held-layers, see findings) and is cut after it".into(),
+            "the order of several outputs within one tick is compared as 'releases in the order of the previous key list, then presses in state order' (appendix A convention)".into(),
+            "delegate-to-first-layer is modelled as acting through the layer search order only (first layer searched after the base layer); use-defsrc and the final fallback are always the plain defsrc key".into(),
+            "deflayermap is not combined with block-unmapped-keys (the guide does not say what a defsrc key that a deflayermap does not list becomes then); keys outside defsrc are only pressed with process-unmapped-keys yes".into(),
+            "boundary convention: an event injected after p ticks is processed by tick p+1, one queued event per tick".into(),
+        ]
+    }
+    fn floors(&self, ctx: &Ctx) -> Vec<(&'static str, u64)> {
+        vec![
+            ("histories_exhaustive", ctx.tier.sel(1_000_000, 100_000_000)),
+            ("histories_random", ctx.tier.sel(10_000, 250_000)),
+            ("release_on_changed_layer_stack", 100_000),
+            ("press_resolved_below_top_layer", 100_000),
+            ("chord_keys_cleared_by_next_action", 10_000),
+            ("release_key_hits", 1_000),
+            ("release_layer_hits", 1_000),
+            ("same_keycode_held_twice", 10_000),
+            ("nested_transparent_resolutions", 10_000),
+            ("first_layer_delegations", 100),
+            ("layer_switches", 1_000),
+            ("max_pending_events", 25),
+            ("max_held_layers", 3),
+        ]
+    }
+    fn exhaustive(&self, _ctx: &Ctx) -> bool {
+        true
+    }
+    fn watchdog_s(&self, _ctx: &Ctx) -> u64 {
+        180
     }
 }
